@@ -132,6 +132,7 @@ func cmdCheck(verifDir, repoDir string, args []string) int {
 	p.tier = tier
 	tLoad := time.Since(t0)
 	findings := loadFindings(verifDir)
+	p.findings = findings
 	targets := p.targetsFor(prop)
 	if len(targets) == 0 {
 		fmt.Printf("ENGINE-ERROR no contracts serve property %s\n", prop)
